@@ -8,6 +8,10 @@ os.makedirs(dst, exist_ok=True)
 for f in ("patch.diff", "demo_test.py", "notes.md"):
     if os.path.exists(os.path.join(src, f)):
         shutil.copy(os.path.join(src, f), os.path.join(dst, f))
+for d in os.listdir(src):
+    if d.startswith("demo_") and os.path.isdir(os.path.join(src, d)):
+        shutil.copytree(os.path.join(src, d), os.path.join(dst, d), dirs_exist_ok=True,
+                        ignore=shutil.ignore_patterns("__pycache__"))
 meta = {
     "property": pid,
     "name": name,
